@@ -160,7 +160,7 @@ func conc(c *Ctx) {
 	// replace them with files of the current format while readers are between
 	// their lookup and their open.
 	preStored := map[string][]byte{}
-	if r.Chance(1, 3) {
+	if c.Opt("prestored", "") == "1" || (c.Opt("prestored", "") == "" && r.Chance(1, 3)) {
 		for _, b := range casBlobs {
 			if corruptKey["cas/"+b.Hash] || !r.Chance(1, 2) {
 				continue
